@@ -29,7 +29,21 @@ Record oreq := { q_replies : nat;              (* scripted number of replies *)
                  q_in_time : bool;             (* some Respond for this request returned >= 20 ms before Result()'s deadline *)
                  q_obs : list oreply }.
 
-Record case := { c_reqs : list oreq; c_dupids : nat; c_stuck : nat }.
+(* stress runs (families `reqstorm`, `reqboundary`): counts over many requests.
+   Probabilistic detectors; every judged field is a logical fact about a
+   completed Request/Result pair, never a bound on elapsed time. *)
+Record stress := { s_kind : nat;               (* 0 = reqstorm, 1 = reqboundary *)
+                   s_hrequests : nat;          (* completed Request+Result pairs, in hundreds *)
+                   s_values : bool;            (* some Result() returned its own token *)
+                   s_errors : bool;            (* some Result() returned the timeout error (recorded, never judged) *)
+                   s_wrong : nat;              (* Result() returned the token of another request *)
+                   s_wrong_unexplained : nat;  (* ... although the two response PIDs differ *)
+                   s_foreign : nat;            (* Result() returned something that is no token *)
+                   s_still_registered : nat;   (* after Result(): the Response is still the registry entry of its PID *)
+                   s_collisions : nat;         (* ActorDuplicateIdEvents for response PIDs: two outstanding requests drew one id *)
+                   s_panics : nat }.
+
+Record case := { c_reqs : list oreq; c_dupids : nat; c_stuck : nat; c_stress : option stress }.
 
 Definition has_value (q : oreq) : bool := match q_value q with Some _ => true | None => false end.
 
@@ -57,7 +71,31 @@ Definition req_ok (r : nat) (q : oreq) : bool :=
   (* replying never blocks the responder (C09: sending never blocks the caller) *)
   forallb or_done (q_obs q).
 
+(* the clauses on a stress run:
+   - C11_correlated: every returned value is a reply to that very request; a
+     foreign token is excused only when the two requests drew the same response
+     id (outside the theorem's premise) ...
+   - ... and that premise is the implementation's to establish: a 31-bit uniform
+     draw makes two outstanding requests collide about once in 10^8 requests, so
+     more than one collision in a run (<= 10^6 requests) is a defect of the id
+     source (false-alarm probability below 10^-6 per run);
+   - C11_unregistered_after_result / C11_unregistered_by_the_return_step: after
+     every Result() the response PID is not registered *)
+Definition stress_ok (t : stress) : bool :=
+  Nat.eqb (s_wrong_unexplained t) 0 && Nat.eqb (s_foreign t) 0 &&
+  Nat.leb (s_collisions t) 1 &&
+  Nat.eqb (s_still_registered t) 0 &&
+  Nat.eqb (s_panics t) 0.
+
+(* deterministic consequences of the model: the return step unregisters
+   whatever the ids (return_step_unregisters); with distinct ids no cross-talk
+   (correlated) *)
+Definition stress_corr (t : stress) : bool :=
+  Nat.eqb (s_still_registered t) 0 &&
+  (if Nat.eqb (s_collisions t) 0 then Nat.eqb (s_wrong t) 0 else true).
+
 Definition oracle (c : case) : bool :=
+  match c_stress c with Some t => stress_ok t | None => true end &&
   Nat.eqb (c_stuck c) 0 &&
   if negb (Nat.eqb (c_dupids c) 0) then true        (* an id collision: outside the NoDup premise *)
   else forallb (fun x : nat * oreq => req_ok x.1 x.2) (imap (fun i q => (i, q)) (c_reqs c)).
@@ -80,6 +118,7 @@ Definition req_corr (r : nat) (q : oreq) : bool :=
   end.
 
 Definition corr (c : case) : bool :=
+  match c_stress c with Some t => stress_corr t | None => true end &&
   if negb (Nat.eqb (c_dupids c) 0) then true
   else forallb (fun x : nat * oreq => req_corr x.1 x.2) (imap (fun i q => (i, q)) (c_reqs c)).
 
@@ -104,7 +143,14 @@ Fixpoint dedup (l : list nat) : list nat :=
 
 Definition branches (c : case) : list nat :=
   dedup (flat_map req_tags (c_reqs c) ++ (if Nat.leb 8 (length (c_reqs c)) then [9] else []) ++
-         (if Nat.eqb (c_dupids c) 0 then [] else [10])).
+         (if Nat.eqb (c_dupids c) 0 then [] else [10]) ++
+         match c_stress c with
+         | None => []
+         | Some t => (if Nat.eqb (s_kind t) 0 then [11] else [12]) ++
+                     (if s_values t && s_errors t then [13] else []) ++
+                     (if Nat.eqb (s_collisions t) 0 then [] else [14]) ++
+                     (if Nat.leb 500 (s_hrequests t) then [15] else [])
+         end).
 
 Fixpoint failing {A} (f : A -> bool) (i : nat) (l : list A) : list nat :=
   match l with [] => [] | a :: l' => (if f a then [] else [i]) ++ failing f (S i) l' end.
@@ -122,7 +168,7 @@ Definition ok_timeout : oreq :=
      q_foreign := false; q_err := true; q_elapsed_ok := true; q_overrun := false; q_unregistered := true; q_in_time := false;
      q_obs := [] |}.
 
-Example good_case : report [ {| c_reqs := [ok_value 0; ok_timeout; ok_value 2]; c_dupids := 0; c_stuck := 0 |} ]
+Example good_case : report [ {| c_reqs := [ok_value 0; ok_timeout; ok_value 2]; c_dupids := 0; c_stuck := 0; c_stress := None |} ]
   = ([], [], [[2; 1; 3]]).
 Proof. by vm_compute. Qed.
 
@@ -130,7 +176,7 @@ Proof. by vm_compute. Qed.
 Example timeout_leaves_pid_registered :
   oracle {| c_reqs := [ {| q_replies := 0; q_class := DNow; q_fan := false; q_handled := true; q_sender_ok := true;
                            q_value := None; q_foreign := false; q_err := true; q_elapsed_ok := true; q_overrun := false;
-                           q_unregistered := false; q_in_time := false; q_obs := [] |} ]; c_dupids := 0; c_stuck := 0 |} = false.
+                           q_unregistered := false; q_in_time := false; q_obs := [] |} ]; c_dupids := 0; c_stuck := 0; c_stress := None |} = false.
 Proof. by vm_compute. Qed.
 Example blocked_responder :
   oracle {| c_reqs := [ {| q_replies := 3; q_class := DNow; q_fan := false; q_handled := true; q_sender_ok := true;
@@ -139,8 +185,25 @@ Example blocked_responder :
                            q_obs := [ {| or_k := 1; or_late := false; or_done := true; or_dead := 0; or_dead_target_ok := true |};
                                       {| or_k := 2; or_late := false; or_done := true; or_dead := 0; or_dead_target_ok := true |};
                                       {| or_k := 3; or_late := false; or_done := false; or_dead := 0; or_dead_target_ok := true |} ] |} ];
-            c_dupids := 0; c_stuck := 1 |} = false.
+            c_dupids := 0; c_stuck := 1; c_stress := None |} = false.
 Proof. by vm_compute. Qed.
 Example reply_to_the_wrong_request :
-  oracle {| c_reqs := [ok_value 1]; c_dupids := 0; c_stuck := 0 |} = false.
+  oracle {| c_reqs := [ok_value 1]; c_dupids := 0; c_stuck := 0; c_stress := None |} = false.
+Proof. by vm_compute. Qed.
+
+(* stress observations: a clean storm, colliding response ids, a PID left registered *)
+Definition clean_storm : stress :=
+  {| s_kind := 0; s_hrequests := 1000; s_values := true; s_errors := false; s_wrong := 0; s_wrong_unexplained := 0;
+     s_foreign := 0; s_still_registered := 0; s_collisions := 0; s_panics := 0 |}.
+Example storm_cases :
+  report [ {| c_reqs := []; c_dupids := 0; c_stuck := 0; c_stress := Some clean_storm |};
+           {| c_reqs := []; c_dupids := 0; c_stuck := 0;
+              c_stress := Some {| s_kind := 0; s_hrequests := 150; s_values := true; s_errors := true; s_wrong := 1;
+                                  s_wrong_unexplained := 0; s_foreign := 0; s_still_registered := 0; s_collisions := 2;
+                                  s_panics := 0 |} |};
+           {| c_reqs := []; c_dupids := 0; c_stuck := 0;
+              c_stress := Some {| s_kind := 1; s_hrequests := 0; s_values := true; s_errors := true; s_wrong := 0;
+                                  s_wrong_unexplained := 0; s_foreign := 0; s_still_registered := 1; s_collisions := 0;
+                                  s_panics := 0 |} |} ]
+  = ([2], [1; 2], [[11; 15]; [11; 13; 14]; [12; 13]]).
 Proof. by vm_compute. Qed.
